@@ -314,11 +314,13 @@ func (ec *EventSystemImpl) reloadConfig() {
 	ec.Lock()
 	ec.requestCapacity = getRequestCapacity()
 	ec.ringBufferCapacity = getRingBufferCapacity()
+	requestCapacity := ec.requestCapacity
+	ringBufferCapacity := ec.ringBufferCapacity
 	ec.Unlock()
 
 	// resize the ring buffer & event store with new capacity
-	ec.Store.SetStoreSize(ec.requestCapacity)
-	ec.eventBuffer.Resize(ec.ringBufferCapacity)
+	ec.Store.SetStoreSize(requestCapacity)
+	ec.eventBuffer.Resize(ringBufferCapacity)
 
 	if ec.isRestartNeeded() {
 		ec.Restart()
